@@ -119,18 +119,18 @@ func (e *Env) Signature() uint64 { return e.sig }
 
 // Op is one operation on a simulator object.
 type Op struct {
-	env      *Env
-	Obj      string
-	Kind     string
-	decide   func(*Tape)
-	release  chan struct{}
-	released bool
+	env         *Env
+	Obj         string
+	Kind        string
+	decide      func(*Tape)
+	release     chan struct{}
+	released    bool
 	cancellable bool
 	// Urgent operations are instantaneous in reality (Close): fake time never
 	// passes while one is parked.
 	Urgent bool
-	relSeq   int
-	task     string
+	relSeq int
+	task   string
 }
 
 // Begin announces an operation on a simulator object.  decide draws whatever
